@@ -574,6 +574,20 @@ func c05Norm(c *c05Case) {
 	}
 }
 
+// the plain-slice interface{} helpers on unhashable elements (they panic; the caller recovers)
+func c05Poison() {
+	bad := []interface{}{3, 1, []int{1}, 2, []int{2}}
+	try := func(f func()) {
+		defer func() { recover() }()
+		f()
+	}
+	try(func() { fpgo.DistinctForInterface(bad...) })
+	try(func() { fpgo.IsSubsetForInterface(bad, bad) })
+	try(func() { fpgo.IsSupersetForInterface(bad, bad) })
+	try(func() { fpgo.IntersectionForInterface(bad, bad) })
+	try(func() { fpgo.MinusForInterface(bad, bad) })
+}
+
 func c05Main(args []string) error {
 	switch args[0] {
 	case "exec": // exec <cases.ndjson>... --out prefix --maxlines N : run both sides of every case, both nil variants
@@ -603,6 +617,10 @@ func c05Main(args []string) error {
 					return err
 				}
 				c05Norm(&c)
+				if n%50 == 0 { // failing calls in between (unhashable elements, recovered): nothing of them may leak into later calls
+					c04Poison()
+					c05Poison()
+				}
 				for _, nv := range []bool{false, true} {
 					c.NilV = nv
 					if w == nil || w.n >= maxl {
